@@ -5,7 +5,7 @@ package main
 func init() {
 	add := map[string]string{
 		"C01": " (R08.7) one varint encoder; (R12.9) the bytes returned by the writer's end* functions start at the popped entry's start; (R16.1) full-width tag comparison.",
-		"C02": " (R02.2) recursion descends: in every recursive cycle of the read cone each call passes a buffer no longer than the caller's and some call a strictly shorter one, so nesting depth is bounded by the input (no stack overflow). Contract-less helpers are covered by inferred pre/postconditions and per-exit summaries, all verified.",
+		"C02": " (R02.2) recursion descends: in every recursive cycle of the read cone each call passes a buffer no longer than the caller's and some call a strictly shorter one, so the recursion terminates and its depth is bounded by the input length (see round 6: that is not a bound on the stack). Contract-less helpers are covered by inferred pre/postconditions and per-exit summaries, all verified.",
 		"C03": " (R06.6, R08.2) the teardown classification in ReceiveAsync and the big-table predicate also count here.",
 		"C04": " (R04.9) frames received from the mpx channel become prpc messages only through prpc.ParseMessage; (R05.8) client and server use Method.Name verbatim as the wire name.",
 		"C05": " (R05.8) method wire names; (R14.16) every import line emitted is used; (R16.1) tag width.",
